@@ -231,7 +231,7 @@ def main():
             cls = getattr(_laws, c["cls"])
             held = {k: (v if isinstance(v, bool) else param(v)) for k, v in c["init"].items()}      # the user's own objects
             m = cls(c["dim"], **held)
-            reads, fresh = [], []
+            reads, fresh, refused = [], [], []
             for op in c["ops"]:
                 if op[0] == "set":                                   # a new object
                     held[op[1]] = op[2] if isinstance(op[2], bool) else param(op[2])
@@ -245,13 +245,23 @@ def main():
                     else:
                         held[op[1]] = held[op[1]] * op[2]
                     setattr(m, op[1], held[op[1]])
+                elif op[0] == "set_bad":                             # an inadmissible value: must be refused AND not kept
+                    bad = param(op[2])
+                    try:
+                        setattr(m, op[1], bad)
+                        refused.append({"name": op[1], "refused": False})
+                    except Exception as ex:  # noqa
+                        now_ = np.asarray(getattr(m, op[1]), dtype=float)
+                        old_ = np.asarray(held[op[1]], dtype=float)
+                        refused.append({"name": op[1], "refused": True, "reads_back_old": bool(now_.shape == old_.shape and np.array_equal(now_, old_)),
+                                        "reads_back": tolist(now_)})
                 elif op[0] == "notify":
                     m.Need_Update()
                 elif op[0].startswith("read"):
                     f = cls(c["dim"], **{k: (np.array(v, copy=True) if isinstance(v, np.ndarray) else v) for k, v in held.items()})
                     reads.append(getter(m, op[0]))
                     fresh.append(getter(f, op[0]))
-            out["lazy"].append({"reads": reads, "fresh": fresh})
+            out["lazy"].append({"reads": reads, "fresh": fresh, "refused": refused})
         except Exception as ex:  # noqa
             out["lazy"].append({"raises": "%s: %s" % (type(ex).__name__, ex)})
     out["purity"] = []
